@@ -50,6 +50,7 @@ impl CPUEmulator {
             self.stm_cycle[segment as usize] = 1;
             self.stm_rep[segment as usize] = 0xFFFF;
             self.stm_freq_div[segment as usize] = 0xFFFF;
+            self.stm_mode[segment as usize] = STM_MODE_GAIN;
 
             self.change_stm_wr_segment(segment as _);
             self.change_stm_wr_page(0);
